@@ -1,12 +1,1650 @@
-//! C15 - not implemented yet
-use crate::common::Report;
+//! C15 - PRF and PRNG are deterministic, in-domain and unbiased.
+//!
+//! Parts (all on the real code):
+//!  * history  (model checking, in-crate exhaustive exploration of the call-history tree): two evaluator
+//!    instances, every history of PRF / PermutationFromPRF / Random / RandomPermutation calls up to the depth
+//!    bound; every returned value is compared with a reference table filled by a fresh evaluator per call;
+//!  * validity: types x counters 0..4096 x 3 keys: valid encodings, true permutations, distinct inputs give
+//!    distinct outputs for types of >= 64 bits and never reuse a 16-byte stream block; PRF(key, 0, .) equals the documented AES-CTR stream of a PRNG
+//!    seeded with the key (two different buffer schedules: 64->512 growth vs 512 fixed);
+//!  * u32range: the PRF session's bounded sampler on ALL raw values of the first draw (tape hook);
+//!  * u64range: PRNG::get_random_in_range around the exact acceptance bound (tape hook);
+//!  * shuffle : RandomPermutation on all choice tuples (tape hook): a bijection onto the n! permutations;
+//!  * valtape : value samplers on all tapes for small bit types: exactly uniform over valid encodings;
+//!  * stream  : two generators from one seed replay each other; every output is predicted from the raw byte
+//!    stream of a third generator (all call sequences of length <= 3).
+use crate::common::{catch, hash_bytes, Report, SplitMix};
+use crate::vals;
+use ciphercore_base::data_types::{
+    array_type, get_size_in_bits, get_types_vector, named_tuple_type, scalar_type, tuple_type, vector_type, Type,
+    BIT, INT32, UINT64, UINT8,
+};
+use ciphercore_base::data_values::Value;
+use ciphercore_base::evaluators::simple_evaluator::SimpleEvaluator;
+use ciphercore_base::evaluators::Evaluator;
+use ciphercore_base::graphs::{create_context, Context, Node};
+use ciphercore_base::random::{verif_prf_value_from_tape, verif_u32_in_range_from_tape, PRNG};
+use rayon::prelude::*;
+use serde_json::{json, Value as J};
+use std::collections::{HashMap, HashSet};
+use std::sync::atomic::{AtomicBool, Ordering};
 
-pub fn run(_r: &Report) -> i32 {
-    println!("MACHINERY-ERROR property=C15 check not implemented");
-    2
+#[derive(Clone, Debug)]
+struct Viol {
+    sig: String,
+    what: String,
+    case: J,
 }
 
-pub fn replay(_r: &Report, _rec: &serde_json::Value) -> i32 {
-    println!("MACHINERY-ERROR property=C15 replay not implemented");
-    2
+fn first_line(s: &str) -> String {
+    s.lines().next().unwrap_or("").chars().take(200).collect()
+}
+
+fn tclass(t: &Type) -> String {
+    match t {
+        Type::Scalar(st) => format!("scalar-{}", st),
+        Type::Array(_, st) => format!("array-{}", st),
+        Type::Tuple(_) => "tuple".to_string(),
+        Type::Vector(_, _) => "vector".to_string(),
+        Type::NamedTuple(_) => "named-tuple".to_string(),
+    }
+}
+
+fn keys() -> Vec<Vec<u8>> {
+    // K2 differs from K1 only in the last bit, K3 only in the first bit
+    let k1: Vec<u8> = (0..16u8).map(|i| 0x10 + i * 7).collect();
+    let mut k2 = k1.clone();
+    k2[15] ^= 0x80;
+    let mut k3 = k1.clone();
+    k3[0] ^= 0x01;
+    vec![k1, k2, k3]
+}
+
+fn key_type() -> Type {
+    array_type(vec![128], BIT)
+}
+
+fn seed_of(i: usize, rseed: u64) -> [u8; 16] {
+    let mut s = [0u8; 16];
+    s.copy_from_slice(&SplitMix(rseed ^ 0xC15 ^ ((i as u64 + 1) << 32)).bytes(16));
+    s
+}
+
+fn eval_node(ev: &mut SimpleEvaluator, node: &Node, deps: Vec<Value>) -> Result<Value, String> {
+    let n = node.clone();
+    match catch(|| ev.evaluate_node(n, deps)) {
+        Ok(Ok(v)) => Ok(v),
+        Ok(Err(e)) => Err(format!("error: {}", first_line(&e.to_string()))),
+        Err(p) => Err(format!("panic: {}", first_line(&p))),
+    }
+}
+
+fn is_permutation(v: &Value, n: u64) -> Result<Vec<u64>, String> {
+    let t = array_type(vec![n], UINT64);
+    if !vals::layout_ok(v, &t) {
+        return Err(format!("value does not have the layout of u64[{}]", n));
+    }
+    let e = vals::arr_elems(v, &t).ok_or("cannot decode".to_string())?;
+    let mut seen = vec![false; n as usize];
+    for x in e.iter() {
+        if *x >= n as u128 {
+            return Err(format!("element {} out of range 0..{}", x, n));
+        }
+        if seen[*x as usize] {
+            return Err(format!("element {} occurs twice", x));
+        }
+        seen[*x as usize] = true;
+    }
+    Ok(e.iter().map(|x| *x as u64).collect())
+}
+
+// ---------------------------------------------------------------------------------------------
+// part 1: call-history exploration
+
+fn history_types() -> Vec<Type> {
+    vec![
+        scalar_type(BIT),
+        array_type(vec![3], UINT8),
+        array_type(vec![70], UINT64),
+        tuple_type(vec![scalar_type(BIT), scalar_type(INT32)]),
+        vector_type(2, tuple_type(vec![array_type(vec![5], BIT), scalar_type(UINT64)])),
+    ]
+}
+const HISTORY_PERM_N: [u64; 4] = [1, 2, 5, 300];
+const HISTORY_COUNTERS: [u64; 3] = [1, 2, 3];
+
+#[derive(Clone, Copy, PartialEq, Eq, Debug)]
+enum CallKind {
+    Prf,
+    PermPrf,
+    Random,
+    RandomPerm,
+}
+impl CallKind {
+    fn name(&self) -> &'static str {
+        match self {
+            CallKind::Prf => "PRF",
+            CallKind::PermPrf => "PermutationFromPRF",
+            CallKind::Random => "Random",
+            CallKind::RandomPerm => "RandomPermutation",
+        }
+    }
+}
+
+struct Call {
+    label: String,
+    kind: CallKind,
+    node: Node,
+    key: Option<usize>,
+    counter: u64,
+    ty: Type,
+    /// index among the PRNG-consuming calls (Random*), else usize::MAX
+    ridx: usize,
+}
+
+struct World {
+    _ctx: Context,
+    keys: Vec<Value>,
+    calls: Vec<Call>,
+    /// value every PRF / PermutationFromPRF call must return (computed by a fresh evaluator per call)
+    reference: Vec<Option<Value>>,
+    /// (instance, sequence of ridx) -> value the last Random* call of the sequence must return
+    rand_oracle: HashMap<(usize, Vec<u8>), Value>,
+    seeds: [[u8; 16]; 2],
+}
+
+impl World {
+    fn new(rseed: u64, depth: usize, core: bool) -> Result<World, String> {
+        let es = |e: ciphercore_base::errors::Error| e.to_string();
+        let c = create_context().map_err(es)?;
+        let g = c.create_graph().map_err(es)?;
+        let k = g.input(key_type()).map_err(es)?;
+        let mut calls = vec![];
+        for ki in 0..2usize {
+            for ctr in HISTORY_COUNTERS.iter() {
+                for t in history_types().iter() {
+                    calls.push(Call {
+                        label: format!("PRF(K{},{},{})", ki + 1, ctr, t),
+                        kind: CallKind::Prf,
+                        node: k.prf(*ctr, t.clone()).map_err(es)?,
+                        key: Some(ki),
+                        counter: *ctr,
+                        ty: t.clone(),
+                        ridx: usize::MAX,
+                    });
+                }
+            }
+        }
+        for ki in 0..2usize {
+            for ctr in HISTORY_COUNTERS.iter() {
+                for n in HISTORY_PERM_N.iter() {
+                    calls.push(Call {
+                        label: format!("PermutationFromPRF(K{},{},{})", ki + 1, ctr, n),
+                        kind: CallKind::PermPrf,
+                        node: k.permutation_from_prf(*ctr, *n).map_err(es)?,
+                        key: Some(ki),
+                        counter: *ctr,
+                        ty: array_type(vec![*n], UINT64),
+                        ridx: usize::MAX,
+                    });
+                }
+            }
+        }
+        let rt = array_type(vec![3], UINT8);
+        calls.push(Call {
+            label: format!("Random({})", rt),
+            kind: CallKind::Random,
+            node: g.random(rt.clone()).map_err(es)?,
+            key: None,
+            counter: 0,
+            ty: rt,
+            ridx: 0,
+        });
+        calls.push(Call {
+            label: "RandomPermutation(5)".to_string(),
+            kind: CallKind::RandomPerm,
+            node: g.random_permutation(5).map_err(es)?,
+            key: None,
+            counter: 0,
+            ty: array_type(vec![5], UINT64),
+            ridx: 1,
+        });
+        if core {
+            // the reduced alphabet used for the deepest level
+            calls.retain(|c| match c.kind {
+                CallKind::Prf => c.counter <= 2 && c.ty != array_type(vec![3], UINT8),
+                CallKind::PermPrf => c.counter == 1 && (c.ty.get_shape()[0] == 5 || c.ty.get_shape()[0] == 300),
+                _ => true,
+            });
+        }
+        g.set_output_node(calls[0].node.clone()).map_err(es)?;
+        g.finalize().map_err(es)?;
+        c.set_main_graph(g).map_err(es)?;
+        c.finalize().map_err(es)?;
+        let keys: Vec<Value> = keys().into_iter().map(Value::from_bytes).collect();
+        let seeds = [seed_of(0, rseed), seed_of(1, rseed)];
+        let mut w = World { _ctx: c, keys, calls, reference: vec![], rand_oracle: HashMap::new(), seeds };
+        // reference table: a fresh evaluator (its own seed) per call
+        for i in 0..w.calls.len() {
+            let c = &w.calls[i];
+            if let Some(ki) = c.key {
+                let mut ev = SimpleEvaluator::new(Some([0x5a; 16])).map_err(es)?;
+                let v = eval_node(&mut ev, &c.node, vec![w.keys[ki].clone()])
+                    .map_err(|e| format!("reference call {} failed: {}", c.label, e))?;
+                w.reference.push(Some(v));
+            } else {
+                w.reference.push(None);
+            }
+        }
+        // oracle for the evaluator's own generator: the same seed, only the Random* calls of the history
+        let rcalls: Vec<usize> = (0..w.calls.len()).filter(|i| w.calls[*i].ridx != usize::MAX).collect();
+        for inst in 0..2usize {
+            let mut seqs: Vec<Vec<u8>> = vec![vec![]];
+            for _ in 0..depth {
+                let mut next = vec![];
+                for s in seqs.iter() {
+                    for r in 0..rcalls.len() {
+                        let mut s2 = s.clone();
+                        s2.push(r as u8);
+                        next.push(s2);
+                    }
+                }
+                for s in next.iter() {
+                    let mut ev = SimpleEvaluator::new(Some(w.seeds[inst])).map_err(es)?;
+                    let mut last = None;
+                    for r in s.iter() {
+                        let ci = rcalls[*r as usize];
+                        last = Some(eval_node(&mut ev, &w.calls[ci].node, vec![])?);
+                    }
+                    w.rand_oracle.insert((inst, s.clone()), last.unwrap());
+                }
+                seqs = next;
+            }
+        }
+        Ok(w)
+    }
+
+    fn table_hash(&self) -> u64 {
+        let mut b = vec![];
+        for v in self.reference.iter().flatten() {
+            vals::key(v, &mut b);
+        }
+        let mut ks: Vec<&(usize, Vec<u8>)> = self.rand_oracle.keys().collect();
+        ks.sort();
+        for k in ks {
+            vals::key(&self.rand_oracle[k], &mut b);
+        }
+        hash_bytes(&b)
+    }
+
+    /// Runs one history on two fresh evaluator instances; returns the first deviation.
+    fn run_history(&self, actions: &[usize], verbose: bool) -> Option<Viol> {
+        let nc = self.calls.len();
+        let mut evs = [
+            SimpleEvaluator::new(Some(self.seeds[0])).unwrap(),
+            SimpleEvaluator::new(Some(self.seeds[1])).unwrap(),
+        ];
+        let mut rseq: [Vec<u8>; 2] = [vec![], vec![]];
+        for (step, a) in actions.iter().enumerate() {
+            let inst = a / nc;
+            let c = &self.calls[a % nc];
+            let deps = match c.key {
+                Some(k) => vec![self.keys[k].clone()],
+                None => vec![],
+            };
+            let got = eval_node(&mut evs[inst], &c.node, deps);
+            let expected = match c.key {
+                Some(_) => self.reference[a % nc].as_ref().unwrap(),
+                None => {
+                    rseq[inst].push(c.ridx as u8);
+                    &self.rand_oracle[&(inst, rseq[inst].clone())]
+                }
+            };
+            let case = || {
+                json!({"part": "history", "step": step,
+                   "actions": actions.iter().map(|x| json!([x / nc, self.calls[x % nc].label])).collect::<Vec<_>>()})
+            };
+            match got {
+                Ok(v) => {
+                    if verbose {
+                        println!(
+                            "  step {} instance {} {}: expected {} observed {}",
+                            step,
+                            inst,
+                            c.label,
+                            vals::show(expected, &c.ty),
+                            vals::show(&v, &c.ty)
+                        );
+                    }
+                    if &v != expected {
+                        return Some(Viol {
+                            sig: format!("C15:history:{}-depends-on-history", c.kind.name()),
+                            what: format!(
+                                "{} in evaluator instance {} at step {} of the history returns {} but {} returns {}",
+                                c.label,
+                                inst,
+                                step,
+                                vals::show(&v, &c.ty),
+                                if c.key.is_some() { "a fresh evaluator" } else { "the same seed without the interleaved calls" },
+                                vals::show(expected, &c.ty)
+                            ),
+                            case: case(),
+                        });
+                    }
+                }
+                Err(e) => {
+                    return Some(Viol {
+                        sig: format!("C15:history:{}-fails", c.kind.name()),
+                        what: format!("{} in instance {} at step {} fails: {}", c.label, inst, step, e),
+                        case: case(),
+                    })
+                }
+            }
+        }
+        None
+    }
+}
+
+fn pow_sum(a: u64, from: u32, to: u32) -> u64 {
+    (from..=to).map(|k| a.pow(k)).sum()
+}
+
+fn history_part(r: &Report) {
+    // every history over the full alphabet up to depth 3; thorough: also the reduced alphabet up to depth 4
+    explore(r, false, 3);
+    if r.tier.thorough() {
+        explore(r, true, 4);
+    }
+}
+
+fn explore(r: &Report, core: bool, depth: usize) {
+    let t_start = r.elapsed();
+    let budget_s: f64 = if r.tier.thorough() { 900.0 } else { 240.0 };
+    let main = match World::new(r.seed, depth, core) {
+        Ok(w) => w,
+        Err(e) => {
+            r.violation("C15:history:setup", &format!("cannot build the call alphabet / reference table: {}", e), json!({"part": "history-setup"}));
+            return;
+        }
+    };
+    let nc = main.calls.len();
+    let a = 2 * nc;
+    let main_hash = main.table_hash();
+    // distinct (key, counter) -> distinct values for types of >= 64 bits (reference table)
+    for i in 0..nc {
+        for j in (i + 1)..nc {
+            let (ci, cj) = (&main.calls[i], &main.calls[j]);
+            if ci.key.is_none() || cj.key.is_none() || ci.kind != cj.kind || ci.ty != cj.ty {
+                continue;
+            }
+            let bits = if ci.kind == CallKind::PermPrf {
+                if ci.ty.get_shape()[0] >= 64 { 64 } else { 0 }
+            } else {
+                get_size_in_bits(ci.ty.clone()).unwrap_or(0)
+            };
+            if bits < 64 {
+                continue;
+            }
+            r.count("reference_pairs_compared", 1);
+            if main.reference[i] == main.reference[j] {
+                r.violation(
+                    &format!("C15:history:distinct-inputs-collide:{}", ci.kind.name()),
+                    &format!("{} and {} return the same value", ci.label, cj.label),
+                    json!({"part": "history", "step": 1, "actions": [[0, ci.label], [0, cj.label]], "collide": true}),
+                );
+            }
+        }
+    }
+    // partition: first two actions
+    let prefix_len = depth.min(2);
+    let n_chunks = (a as u64).pow(prefix_len as u32);
+    let rest = depth - prefix_len;
+    let leaves_per_chunk = (a as u64).pow(rest as u32);
+    let capped = AtomicBool::new(false);
+    let rseed = r.seed;
+    let results: Vec<(u64, Option<Viol>, bool)> = (0..n_chunks)
+        .into_par_iter()
+        .map_init(
+            || World::new(rseed, depth, core).ok(),
+            |w, chunk| {
+                let w = match w {
+                    Some(w) => w,
+                    None => return (0, None, false),
+                };
+                if r.elapsed() - t_start > budget_s {
+                    capped.store(true, Ordering::Relaxed);
+                    return (0, None, true);
+                }
+                let consistent = w.table_hash() == main_hash;
+                let mut actions = vec![0usize; depth];
+                let mut c = chunk;
+                for i in (0..prefix_len).rev() {
+                    actions[i] = (c % a as u64) as usize;
+                    c /= a as u64;
+                }
+                let mut first: Option<Viol> = None;
+                let mut n = 0u64;
+                for leaf in 0..leaves_per_chunk {
+                    let mut l = leaf;
+                    for i in (prefix_len..depth).rev() {
+                        actions[i] = (l % a as u64) as usize;
+                        l /= a as u64;
+                    }
+                    n += 1;
+                    if let Some(v) = w.run_history(&actions, false) {
+                        if first.is_none() {
+                            first = Some(v);
+                        }
+                    }
+                }
+                (n, first, consistent)
+            },
+        )
+        .collect();
+    let mut leaves = 0u64;
+    for (n, v, consistent) in results.into_iter() {
+        leaves += n;
+        if n > 0 && !consistent {
+            r.violation(
+                "C15:history:reference-table-differs-between-contexts",
+                "the reference table (fresh evaluator per call) differs between two identically built contexts",
+                json!({"part": "history-setup"}),
+            );
+        }
+        if let Some(v) = v {
+            r.violation(&v.sig, &v.what, v.case);
+        }
+    }
+    if capped.load(Ordering::Relaxed) {
+        r.cap_hit(&format!("history exploration stopped by its time budget of {} s at depth {}", budget_s, depth));
+    }
+    let full = leaves == (a as u64).pow(depth as u32);
+    r.extra(
+        if core { "history_reduced_alphabet" } else { "history_full_alphabet" },
+        json!({"depth": depth, "calls": nc, "actions_per_step": a, "histories_of_full_depth": leaves}),
+    );
+    r.count("history_leaves_run", leaves);
+    r.count("history_calls_executed", leaves * depth as u64);
+    r.count("evaluations", leaves * depth as u64);
+    if full {
+        r.count("states", pow_sum(a as u64, 0, depth as u32));
+        r.count("transitions", pow_sum(a as u64, 1, depth as u32));
+    } else {
+        r.count("states", leaves);
+        r.count("transitions", leaves * depth as u64);
+    }
+    r.count("traces_validated_against_impl", leaves);
+    for c in main.calls.iter() {
+        r.distinct(hash_bytes(format!("history-call|{}", c.label).as_bytes()));
+    }
+    r.sample(json!({"part": "history", "depth": depth, "actions_per_step": a, "calls": nc,
+                    "first_calls": main.calls.iter().take(3).map(|c| c.label.clone()).collect::<Vec<_>>()}));
+}
+
+// ---------------------------------------------------------------------------------------------
+// part 2: validity over counters x keys x types
+
+fn validity_types() -> Vec<Type> {
+    let mut ts = history_types();
+    for st in vals::ALL_ST.iter() {
+        ts.push(scalar_type(*st));
+    }
+    for n in [1u64, 7, 8, 9, 63, 65] {
+        ts.push(array_type(vec![n], BIT));
+    }
+    ts.push(array_type(vec![2, 5], BIT));
+    ts.push(array_type(vec![5], INT32));
+    ts.push(named_tuple_type(vec![
+        ("a".to_string(), array_type(vec![3], BIT)),
+        ("b".to_string(), vector_type(2, array_type(vec![9], BIT))),
+    ]));
+    ts.push(tuple_type(vec![]));
+    ts
+}
+const VALIDITY_PERM_N: [u64; 10] = [1, 2, 3, 5, 16, 17, 255, 256, 257, 300];
+const N_COUNTERS: u64 = 4096;
+
+struct ValOut {
+    viols: Vec<Viol>,
+    calls: u64,
+    padded: u64,
+    distinct_checked: u64,
+    blocks_checked: u64,
+}
+
+fn has_padding_bits(t: &Type) -> bool {
+    match t {
+        Type::Scalar(st) => *st == BIT,
+        Type::Array(_, st) => *st == BIT && vals::num_elems(t) % 8 != 0,
+        _ => get_types_vector(t.clone()).map(|ts| ts.iter().any(|x| has_padding_bits(x))).unwrap_or(false),
+    }
+}
+
+/// item: Ok(type) = PRF with that output type, Err(n) = PermutationFromPRF of length n
+fn validity_item(item: &Result<Type, u64>, only: Option<(usize, u64)>, verbose: bool) -> ValOut {
+    let mut out = ValOut { viols: vec![], calls: 0, padded: 0, distinct_checked: 0, blocks_checked: 0 };
+    let (label, ty, kindname) = match item {
+        Ok(t) => (format!("PRF(.,.,{})", t), t.clone(), "prf"),
+        Err(n) => (format!("PermutationFromPRF(.,.,{})", n), array_type(vec![*n], UINT64), "perm-prf"),
+    };
+    let item_json = match item {
+        Ok(t) => json!({"type": format!("{}", t)}),
+        Err(n) => json!({"perm_n": n}),
+    };
+    let mk = |kindstr: &str, ki: usize, ctr: u64, msg: String| Viol {
+        sig: format!("C15:{}:{}:{}", kindname, kindstr, tclass(&ty)),
+        what: format!("{} with key K{} counter {}: {}", label, ki + 1, ctr, msg),
+        case: json!({"part": "validity", "item": item_json, "key": ki, "counter": ctr}),
+    };
+    let build = || -> Result<(Context, Node, Vec<Node>), String> {
+        let es = |e: ciphercore_base::errors::Error| e.to_string();
+        let c = create_context().map_err(es)?;
+        let g = c.create_graph().map_err(es)?;
+        let k = g.input(key_type()).map_err(es)?;
+        let mut nodes = vec![];
+        for ctr in 0..N_COUNTERS {
+            nodes.push(match item {
+                Ok(t) => k.prf(ctr, t.clone()).map_err(es)?,
+                Err(n) => k.permutation_from_prf(ctr, *n).map_err(es)?,
+            });
+        }
+        Ok((c, k, nodes))
+    };
+    let (_c, _k, nodes) = match catch(build) {
+        Ok(Ok(x)) => x,
+        Ok(Err(e)) | Err(e) => {
+            out.viols.push(mk("cannot-build", 0, 0, first_line(&e)));
+            return out;
+        }
+    };
+    let ks: Vec<Value> = keys().into_iter().map(Value::from_bytes).collect();
+    let wide = match item {
+        Ok(t) => get_size_in_bits(t.clone()).unwrap_or(0) >= 64,
+        Err(n) => *n >= 64,
+    };
+    let mut seen: HashSet<Vec<u8>> = HashSet::new();
+    // 16-byte blocks of the output streams: different (key, counter) inputs must not reuse a block
+    let blockwise = match item {
+        Ok(t) => matches!(t, Type::Scalar(_) | Type::Array(_, _)) && !has_padding_bits(t) && leaf_bytes(t) >= 16,
+        Err(_) => false,
+    };
+    let mut blocks: HashSet<[u8; 16]> = HashSet::new();
+    let mut ev = SimpleEvaluator::new(Some([3u8; 16])).unwrap();
+    for ki in 0..ks.len() {
+        for ctr in 0..N_COUNTERS {
+            if let Some((oki, octr)) = only {
+                if !wide && (oki != ki || octr != ctr) {
+                    continue;
+                }
+            }
+            out.calls += 1;
+            let v = match eval_node(&mut ev, &nodes[ctr as usize], vec![ks[ki].clone()]) {
+                Ok(v) => v,
+                Err(e) => {
+                    out.viols.push(mk("fails", ki, ctr, e));
+                    continue;
+                }
+            };
+            let show_it = verbose && only == Some((ki, ctr));
+            match item {
+                Ok(t) => {
+                    if show_it {
+                        println!("  observed {} ; layout valid: {}", vals::show(&v, t), vals::layout_ok(&v, t));
+                    }
+                    if has_padding_bits(t) {
+                        out.padded += 1;
+                    }
+                    if !vals::layout_ok(&v, t) {
+                        out.viols.push(mk("invalid-encoding", ki, ctr, format!("{} is not a valid encoding (length / unused bits)", vals::show(&v, t))));
+                    }
+                }
+                Err(n) => {
+                    if show_it {
+                        println!("  observed {} ; permutation: {:?}", vals::show(&v, &ty), is_permutation(&v, *n).is_ok());
+                    }
+                    if let Err(e) = is_permutation(&v, *n) {
+                        out.viols.push(mk("not-a-permutation", ki, ctr, e));
+                    }
+                }
+            }
+            if blockwise {
+                let bytes = v.access_bytes(|b| Ok(b.to_vec())).unwrap_or_default();
+                for ch in bytes.chunks_exact(16) {
+                    let mut b = [0u8; 16];
+                    b.copy_from_slice(ch);
+                    out.blocks_checked += 1;
+                    if !blocks.insert(b) && !out.viols.iter().any(|x| x.sig.contains("streams-overlap")) {
+                        out.viols.push(mk(
+                            "streams-overlap",
+                            ki,
+                            ctr,
+                            "a 16-byte block of this output already occurred in this or another (key, counter) output: the streams are not unrelated".into(),
+                        ));
+                    }
+                }
+            }
+            if wide {
+                let mut kb = vec![];
+                vals::key(&v, &mut kb);
+                out.distinct_checked += 1;
+                if !seen.insert(kb) {
+                    out.viols.push(mk("distinct-inputs-collide", ki, ctr, "returns a value already returned for another (key, counter)".into()));
+                }
+            }
+        }
+    }
+    out
+}
+
+fn validity_items() -> Vec<Result<Type, u64>> {
+    let mut items: Vec<Result<Type, u64>> = validity_types().into_iter().map(Ok).collect();
+    items.extend(VALIDITY_PERM_N.iter().map(|n| Err(*n)));
+    items
+}
+
+/// Random / RandomPermutation nodes of a seeded evaluator: valid encodings, true permutations.
+fn random_validity(rseed: u64) -> ValOut {
+    let mut out = ValOut { viols: vec![], calls: 0, padded: 0, distinct_checked: 0, blocks_checked: 0 };
+    let res = catch(|| -> Result<(), String> {
+        let es = |e: ciphercore_base::errors::Error| e.to_string();
+        let c = create_context().map_err(es)?;
+        let g = c.create_graph().map_err(es)?;
+        let mut ev = SimpleEvaluator::new(Some(seed_of(7, rseed))).map_err(es)?;
+        for t in validity_types().iter() {
+            let node = g.random(t.clone()).map_err(es)?;
+            for i in 0..512u64 {
+                out.calls += 1;
+                let v = eval_node(&mut ev, &node, vec![])?;
+                if has_padding_bits(t) {
+                    out.padded += 1;
+                }
+                if !vals::layout_ok(&v, t) {
+                    out.viols.push(Viol {
+                        sig: format!("C15:random:invalid-encoding:{}", tclass(t)),
+                        what: format!("Random({}) draw {} returns {}, not a valid encoding", t, i, vals::show(&v, t)),
+                        case: json!({"part": "random-validity"}),
+                    });
+                }
+            }
+        }
+        for n in VALIDITY_PERM_N.iter() {
+            let node = g.random_permutation(*n).map_err(es)?;
+            for i in 0..256u64 {
+                out.calls += 1;
+                let v = eval_node(&mut ev, &node, vec![])?;
+                if let Err(e) = is_permutation(&v, *n) {
+                    out.viols.push(Viol {
+                        sig: "C15:random-permutation:not-a-permutation".to_string(),
+                        what: format!("RandomPermutation({}) draw {}: {}", n, i, e),
+                        case: json!({"part": "random-validity"}),
+                    });
+                }
+            }
+        }
+        Ok(())
+    });
+    match res {
+        Ok(Ok(())) => {}
+        Ok(Err(e)) | Err(e) => out.viols.push(Viol {
+            sig: "C15:random:fails".to_string(),
+            what: format!("Random / RandomPermutation evaluation fails: {}", first_line(&e)),
+            case: json!({"part": "random-validity"}),
+        }),
+    }
+    out
+}
+
+/// PRF(key, 0, u8[n]) must be the first n bytes of the AES-CTR stream of a generator seeded with the key.
+fn ctr_law(verbose: bool) -> (Vec<Viol>, u64) {
+    let mut viols = vec![];
+    let mut n_checked = 0;
+    let res = catch(|| -> Result<(), String> {
+        let es = |e: ciphercore_base::errors::Error| e.to_string();
+        let c = create_context().map_err(es)?;
+        let g = c.create_graph().map_err(es)?;
+        let k = g.input(key_type()).map_err(es)?;
+        for n in [1u64, 16, 63, 64, 65, 191, 192, 193, 447, 448, 449, 560, 959, 960, 961, 1472, 1473, 2000] {
+            let t = array_type(vec![n], UINT8);
+            let node = k.prf(0, t.clone()).map_err(es)?;
+            for (ki, key) in keys().into_iter().enumerate() {
+                let mut ev = SimpleEvaluator::new(Some([1u8; 16])).map_err(es)?;
+                let v = eval_node(&mut ev, &node, vec![Value::from_bytes(key.clone())])?;
+                let mut seed = [0u8; 16];
+                seed.copy_from_slice(&key);
+                let mut g2 = PRNG::new(Some(seed)).map_err(es)?;
+                let stream = g2.get_random_bytes(n as usize).map_err(es)?;
+                let got = v.access_bytes(|b| Ok(b.to_vec())).map_err(es)?;
+                n_checked += 1;
+                if verbose {
+                    println!("  n={} key K{}: PRF bytes == generator bytes: {}", n, ki + 1, got == stream);
+                }
+                if got != stream {
+                    let pos = got.iter().zip(stream.iter()).position(|(a, b)| a != b).unwrap_or(got.len().min(stream.len()));
+                    viols.push(Viol {
+                        sig: "C15:prf:counter0-differs-from-ctr-stream".to_string(),
+                        what: format!(
+                            "PRF(K{}, 0, u8[{}]) differs from the first {} bytes of PRNG::new(K{}) at byte {} (AES_k(0|input)|AES_k(1|input)|... with input 0 is the generator's stream)",
+                            ki + 1, n, n, ki + 1, pos
+                        ),
+                        case: json!({"part": "ctr-law"}),
+                    });
+                }
+            }
+        }
+        Ok(())
+    });
+    match res {
+        Ok(Ok(())) => {}
+        Ok(Err(e)) | Err(e) => viols.push(Viol {
+            sig: "C15:prf:ctr-law-fails".to_string(),
+            what: first_line(&e),
+            case: json!({"part": "ctr-law"}),
+        }),
+    }
+    (viols, n_checked)
+}
+
+fn validity_part(r: &Report) {
+    let items = validity_items();
+    let outs: Vec<ValOut> = items.par_iter().map(|it| validity_item(it, None, false)).collect();
+    for (i, o) in outs.into_iter().enumerate() {
+        r.count("evaluations", o.calls);
+        r.count("validity_calls", o.calls);
+        r.count("validity_values_with_padding_bits", o.padded);
+        r.count("validity_distinctness_checked", o.distinct_checked);
+        r.count("validity_stream_blocks_checked", o.blocks_checked);
+        r.distinct(hash_bytes(format!("validity|{}", i).as_bytes()));
+        for v in o.viols {
+            r.violation(&v.sig, &v.what, v.case);
+        }
+    }
+    let o = random_validity(r.seed);
+    r.count("evaluations", o.calls);
+    r.count("random_validity_calls", o.calls);
+    r.count("validity_values_with_padding_bits", o.padded);
+    for v in o.viols {
+        r.violation(&v.sig, &v.what, v.case);
+    }
+    let (viols, n) = ctr_law(false);
+    r.count("evaluations", n);
+    r.count("ctr_law_cases", n);
+    for v in viols {
+        r.violation(&v.sig, &v.what, v.case);
+    }
+}
+
+// ---------------------------------------------------------------------------------------------
+// part 3: the PRF session's bounded sampler, all raw values of the first draw
+
+const CONT: [u8; 8] = [7, 0, 0, 0, 0, 0, 0, 0];
+
+struct RangeOut {
+    viols: Vec<Viol>,
+    calls: u64,
+    rejected: u64,
+    accepted: u64,
+}
+
+fn u32_hook(tape: Vec<u8>, m: u32) -> Result<(u32, usize), String> {
+    match catch(|| verif_u32_in_range_from_tape(tape, m)) {
+        Ok(Ok(x)) => Ok(x),
+        Ok(Err(e)) => Err(format!("error: {}", first_line(&e.to_string()))),
+        Err(p) => Err(format!("panic: {}", first_line(&p))),
+    }
+}
+
+/// All 2^(8*enum_bytes) prefixes for modulus m. `range`: sub-range of the prefixes (for parallel splitting).
+fn u32_range_counts(m: u32, enum_bytes: usize, lo: u64, hi: u64, nb: usize) -> (Vec<u64>, RangeOut) {
+    let mut acc = vec![0u64; m as usize];
+    let mut out = RangeOut { viols: vec![], calls: 0, rejected: 0, accepted: 0 };
+    let mk = |kindstr: &str, raw: u64, msg: String| Viol {
+        sig: format!("C15:u32-in-range:{}", kindstr),
+        what: format!("generate_u32_in_range(modulus {}) on raw bytes {:?}: {}", m, &raw.to_le_bytes()[..enum_bytes], msg),
+        case: json!({"part": "u32range", "modulus": m, "enum_bytes": enum_bytes, "raw": raw}),
+    };
+    for raw in lo..hi {
+        let mut tape = raw.to_le_bytes()[..enum_bytes].to_vec();
+        tape.extend_from_slice(&CONT);
+        out.calls += 1;
+        let (v, c) = match u32_hook(tape.clone(), m) {
+            Ok(x) => x,
+            Err(e) => {
+                if out.viols.len() < 4 {
+                    out.viols.push(mk("fails", raw, e));
+                }
+                continue;
+            }
+        };
+        if v >= m {
+            if out.viols.len() < 4 {
+                out.viols.push(mk("out-of-range", raw, format!("returned {} >= modulus", v)));
+            }
+            continue;
+        }
+        if c == nb {
+            acc[v as usize] += 1;
+            out.accepted += 1;
+        } else {
+            out.rejected += 1;
+            // a rejected draw must be discarded completely: the result is what the sampler returns on the rest
+            let rest = tape[nb.min(tape.len())..].to_vec();
+            match u32_hook(rest, m) {
+                Ok((v2, c2)) => {
+                    if c < nb || v2 != v || c2 + nb != c {
+                        if out.viols.len() < 4 {
+                            out.viols.push(mk(
+                                "rejection-not-redrawn",
+                                raw,
+                                format!("returned {} after {} bytes, but the sampler on the tape without the first {} bytes returns {} after {} bytes", v, c, nb, v2, c2),
+                            ));
+                        }
+                    }
+                }
+                Err(e) => {
+                    if out.viols.len() < 4 {
+                        out.viols.push(mk("fails", raw, e));
+                    }
+                }
+            }
+        }
+    }
+    (acc, out)
+}
+
+fn u32_range_modulus(m: u32, enum_bytes: usize, verbose: bool) -> (RangeOut, Option<String>) {
+    // bytes of one draw = what the always-accepted raw value 0 consumes
+    let mut t0 = vec![0u8; enum_bytes];
+    t0.extend_from_slice(&CONT);
+    let nb = match u32_hook(t0, m) {
+        Ok((_, c)) => c,
+        Err(e) => {
+            return (
+                RangeOut {
+                    viols: vec![Viol {
+                        sig: "C15:u32-in-range:fails".into(),
+                        what: format!("generate_u32_in_range(modulus {}) on a zero tape: {}", m, e),
+                        case: json!({"part": "u32range", "modulus": m, "enum_bytes": enum_bytes, "raw": 0}),
+                    }],
+                    calls: 1,
+                    rejected: 0,
+                    accepted: 0,
+                },
+                None,
+            )
+        }
+    };
+    if nb == 0 || nb > enum_bytes {
+        return (
+            RangeOut { viols: vec![], calls: 1, rejected: 0, accepted: 0 },
+            Some(format!("modulus {}: one draw takes {} bytes, more than the {} enumerated", m, nb, enum_bytes)),
+        );
+    }
+    let total = 1u64 << (8 * enum_bytes);
+    let (acc, mut out) = if enum_bytes <= 2 {
+        u32_range_counts(m, enum_bytes, 0, total, nb)
+    } else {
+        let parts: Vec<(Vec<u64>, RangeOut)> = (0..256u64)
+            .into_par_iter()
+            .map(|h| u32_range_counts(m, enum_bytes, h * (total / 256), (h + 1) * (total / 256), nb))
+            .collect();
+        let mut acc = vec![0u64; m as usize];
+        let mut out = RangeOut { viols: vec![], calls: 0, rejected: 0, accepted: 0 };
+        for (a, o) in parts {
+            for (i, x) in a.iter().enumerate() {
+                acc[i] += x;
+            }
+            out.calls += o.calls;
+            out.rejected += o.rejected;
+            out.accepted += o.accepted;
+            for v in o.viols {
+                if out.viols.len() < 4 {
+                    out.viols.push(v);
+                }
+            }
+        }
+        (acc, out)
+    };
+    let mn = acc.iter().copied().min().unwrap_or(0);
+    let mx = acc.iter().copied().max().unwrap_or(0);
+    if verbose {
+        println!(
+            "  modulus {}: {} bytes per draw, accepted {} rejected {}; residue counts min {} max {} (expected equal, > 0)",
+            m, nb, out.accepted, out.rejected, mn, mx
+        );
+    }
+    if mn != mx || mn == 0 {
+        let imin = acc.iter().position(|x| *x == mn).unwrap_or(0);
+        let imax = acc.iter().position(|x| *x == mx).unwrap_or(0);
+        out.viols.push(Viol {
+            sig: "C15:u32-in-range:biased".into(),
+            what: format!(
+                "generate_u32_in_range(modulus {}): over all {} raw values of the first draw, residue {} is returned {} times but residue {} {} times",
+                m, total, imin, mn, imax, mx
+            ),
+            case: json!({"part": "u32range", "modulus": m, "enum_bytes": enum_bytes}),
+        });
+    }
+    (out, None)
+}
+
+/// larger moduli: raw values around the exact acceptance bound of one draw
+fn u32_range_boundary(m: u32, verbose: bool) -> RangeOut {
+    let mut out = RangeOut { viols: vec![], calls: 0, rejected: 0, accepted: 0 };
+    let mut t0 = vec![0u8; 8];
+    t0.extend_from_slice(&CONT);
+    let nb = match u32_hook(t0, m) {
+        Ok((_, c)) => c,
+        Err(e) => {
+            out.viols.push(Viol {
+                sig: "C15:u32-in-range:fails".into(),
+                what: format!("modulus {}: {}", m, e),
+                case: json!({"part": "u32boundary", "modulus": m}),
+            });
+            return out;
+        }
+    };
+    if nb == 0 || nb > 8 {
+        return out;
+    }
+    let space: u128 = 1u128 << (8 * nb);
+    let bound: u128 = space / m as u128 * m as u128;
+    let mut raws: Vec<u128> = vec![0, 1, bound - 1, bound, bound + 1, space - 1, (m as u128) - 1, m as u128];
+    raws.retain(|x| *x < space);
+    raws.sort();
+    raws.dedup();
+    for raw in raws {
+        let mut tape = (raw as u64).to_le_bytes()[..nb].to_vec();
+        tape.extend_from_slice(&CONT);
+        out.calls += 1;
+        let exp = if raw < bound { ((raw % m as u128) as u32, nb) } else { (7 % m, 2 * nb) };
+        if raw < bound {
+            out.accepted += 1;
+        } else {
+            out.rejected += 1;
+        }
+        let got = u32_hook(tape, m);
+        if verbose {
+            println!("  modulus {} raw {} (bound {}): expected {:?} observed {:?}", m, raw, bound, exp, got);
+        }
+        if got != Ok(exp) {
+            out.viols.push(Viol {
+                sig: "C15:u32-in-range:acceptance-bound".into(),
+                what: format!(
+                    "generate_u32_in_range(modulus {}) on raw value {} ({} bytes per draw, exact bound {}): expected (value, bytes) {:?}, observed {:?}",
+                    m, raw, nb, bound, exp, got
+                ),
+                case: json!({"part": "u32boundary", "modulus": m}),
+            });
+        }
+    }
+    out
+}
+
+fn u32range_part(r: &Report) {
+    let outs: Vec<(RangeOut, Option<String>)> =
+        (1..=256u32).into_par_iter().map(|m| u32_range_modulus(m, 2, false)).collect();
+    let mut all = outs;
+    if r.tier.thorough() {
+        for m in [257u32, 1000, 65535, 65536] {
+            all.push(u32_range_modulus(m, 3, false));
+        }
+    }
+    for (o, cap) in all {
+        r.count("evaluations", o.calls);
+        r.count("u32range_calls", o.calls);
+        r.count("u32range_first_draw_rejected", o.rejected);
+        r.count("u32range_first_draw_accepted", o.accepted);
+        r.count("u32range_moduli", 1);
+        if let Some(c) = cap {
+            r.cap_hit(&c);
+        }
+        for v in o.viols {
+            r.violation(&v.sig, &v.what, v.case);
+        }
+    }
+    for m in [257u32, 1000, 65535, 65536, 65537, 1 << 24, (1 << 24) + 1, 1_000_000_000, 1 << 31, (1 << 31) + 1, u32::MAX] {
+        let o = u32_range_boundary(m, false);
+        r.count("evaluations", o.calls);
+        r.count("u32boundary_calls", o.calls);
+        r.count("u32boundary_rejected", o.rejected);
+        for v in o.viols {
+            r.violation(&v.sig, &v.what, v.case);
+        }
+    }
+}
+
+// ---------------------------------------------------------------------------------------------
+// part 4: PRNG::get_random_in_range (64 bit) around the exact bound
+
+fn u64_moduli() -> Vec<u64> {
+    let mut ms: Vec<u64> = (1..=65536u64).collect();
+    for k in 0..64u32 {
+        let p = 1u64 << k;
+        ms.push(p);
+        ms.push(p.wrapping_sub(1));
+        ms.push(p + 1);
+        if k <= 62 {
+            ms.push(3u64.wrapping_mul(p));
+        }
+    }
+    ms.push(u64::MAX);
+    ms.retain(|m| *m >= 1);
+    ms.sort();
+    ms.dedup();
+    ms
+}
+
+fn u64_range_modulus(m: u64, verbose: bool) -> RangeOut {
+    let mut out = RangeOut { viols: vec![], calls: 0, rejected: 0, accepted: 0 };
+    let space: u128 = 1u128 << 64;
+    let bound: u128 = space / m as u128 * m as u128;
+    let mut raws: Vec<u128> = vec![0, bound - 1, bound, bound + 1, space - 1];
+    raws.retain(|x| *x < space);
+    raws.sort();
+    raws.dedup();
+    for raw in raws {
+        let mut tape = (raw as u64).to_le_bytes().to_vec();
+        tape.extend_from_slice(&CONT);
+        out.calls += 1;
+        let exp: (u64, usize) = if raw < bound { ((raw % m as u128) as u64, 8) } else { (7 % m, 16) };
+        if raw < bound {
+            out.accepted += 1;
+        } else {
+            out.rejected += 1;
+        }
+        let got: Result<(u64, usize), String> = match catch(|| -> Result<(u64, usize), String> {
+            let mut g = PRNG::verif_from_tape(tape).map_err(|e| e.to_string())?;
+            let v = g.get_random_in_range(Some(m)).map_err(|e| e.to_string())?;
+            Ok((v, g.verif_tape_consumed()))
+        }) {
+            Ok(x) => x.map_err(|e| first_line(&e)),
+            Err(p) => Err(format!("panic: {}", first_line(&p))),
+        };
+        if verbose {
+            println!("  modulus {} raw {} (bound {}): expected {:?} observed {:?}", m, raw, bound, exp, got);
+        }
+        if got != Ok(exp) {
+            out.viols.push(Viol {
+                sig: "C15:u64-in-range:acceptance-bound".into(),
+                what: format!(
+                    "PRNG::get_random_in_range({}) on raw value {} (exact bound floor(2^64/m)*m = {}): expected (value, bytes consumed) {:?}, observed {:?}",
+                    m, raw, bound, exp, got
+                ),
+                case: json!({"part": "u64range", "modulus": m.to_string()}),
+            });
+        }
+    }
+    out
+}
+
+fn u64range_part(r: &Report) {
+    let ms = u64_moduli();
+    let outs: Vec<RangeOut> = ms.par_iter().map(|m| u64_range_modulus(*m, false)).collect();
+    for o in outs {
+        r.count("evaluations", o.calls);
+        r.count("u64range_calls", o.calls);
+        r.count("u64range_rejected", o.rejected);
+        r.count("u64range_moduli", 1);
+        for v in o.viols {
+            r.violation(&v.sig, &v.what, v.case);
+        }
+    }
+    // no modulus: the raw 64-bit value
+    for raw in [0u64, 1, 0x0123_4567_89ab_cdef, u64::MAX] {
+        let got = catch(|| -> Result<u64, String> {
+            let mut g = PRNG::verif_from_tape(raw.to_le_bytes().to_vec()).map_err(|e| e.to_string())?;
+            g.get_random_in_range(None).map_err(|e| e.to_string())
+        });
+        r.count("evaluations", 1);
+        if got != Ok(Ok(raw)) {
+            r.violation(
+                "C15:u64-in-range:no-modulus",
+                &format!("get_random_in_range(None) on raw {} returns {:?}", raw, got),
+                json!({"part": "u64range", "modulus": "none"}),
+            );
+        }
+    }
+}
+
+// ---------------------------------------------------------------------------------------------
+// part 5: RandomPermutation is a bijection from the choice tuples onto the permutations
+
+fn shuffle_n(n: u64, verbose: bool) -> (Vec<Viol>, u64) {
+    let mut viols = vec![];
+    let mut calls = 0u64;
+    let case = json!({"part": "shuffle", "n": n});
+    let res = catch(|| -> Result<(), String> {
+        let es = |e: ciphercore_base::errors::Error| e.to_string();
+        let c = create_context().map_err(es)?;
+        let g = c.create_graph().map_err(es)?;
+        let node = g.random_permutation(n).map_err(es)?;
+        // The order and radices of the draws (n, n-1, .., 2 or 2, .., n) are not assumed: every draw position gets
+        // every raw value in 0..n! (a multiple of every radix, so raw mod radix is uniform; all of them are far below
+        // the acceptance bound). Over all (n!)^(n-1) raw tuples every permutation must occur equally often.
+        let mut fact = 1u64;
+        for i in 2..=n {
+            fact *= i;
+        }
+        let draws = (n - 1) as usize;
+        let total = fact.pow(draws as u32);
+        let mut counts: HashMap<Vec<u64>, u64> = HashMap::new();
+        for id in 0..total {
+            let mut x = id;
+            let mut tape = vec![];
+            for _ in 0..draws {
+                tape.extend_from_slice(&(x % fact).to_le_bytes());
+                x /= fact;
+            }
+            tape.extend_from_slice(&CONT);
+            let mut ev = SimpleEvaluator::verif_with_prng(PRNG::verif_from_tape(tape).map_err(es)?);
+            calls += 1;
+            let v = eval_node(&mut ev, &node, vec![])?;
+            let p = is_permutation(&v, n)?;
+            *counts.entry(p).or_insert(0) += 1;
+        }
+        let expect = total / fact;
+        if verbose {
+            println!("  n={}: {} raw tuples, {} distinct permutations (n! = {}), each expected {} times", n, total, counts.len(), fact, expect);
+        }
+        if counts.len() as u64 != fact || counts.values().any(|c| *c != expect) {
+            let (p, c) = counts.iter().min_by_key(|(p, c)| (**c, (*p).clone())).map(|(p, c)| (p.clone(), *c)).unwrap_or((vec![], 0));
+            viols.push(Viol {
+                sig: "C15:random-permutation:shuffle-not-uniform".into(),
+                what: format!(
+                    "RandomPermutation({}): over all {} equally likely tuples of in-range draws {} distinct permutations occur (n! = {}); e.g. {:?} occurs {} times, expected {}",
+                    n, total, counts.len(), fact, p, c, expect
+                ),
+                case: case.clone(),
+            });
+        }
+        Ok(())
+    });
+    match res {
+        Ok(Ok(())) => {}
+        Ok(Err(e)) | Err(e) => viols.push(Viol {
+            sig: "C15:random-permutation:fails".into(),
+            what: format!("RandomPermutation({}) on a tape: {}", n, first_line(&e)),
+            case,
+        }),
+    }
+    (viols, calls)
+}
+
+fn shuffle_part(r: &Report) {
+    // n = 4: 24^3 = 13824 tuples; n = 5: 120^4 = 207 million (too many) -> n <= 4
+    for n in 1..=4u64 {
+        let (viols, calls) = shuffle_n(n, false);
+        r.count("evaluations", calls);
+        r.count("shuffle_calls", calls);
+        for v in viols {
+            r.violation(&v.sig, &v.what, v.case);
+        }
+    }
+}
+
+// ---------------------------------------------------------------------------------------------
+// part 6: value samplers on all tapes for small bit types
+
+fn valtape_types() -> Vec<Type> {
+    vec![
+        scalar_type(BIT),
+        array_type(vec![3], BIT),
+        array_type(vec![7], BIT),
+        array_type(vec![8], BIT),
+        scalar_type(UINT8),
+        array_type(vec![9], BIT),
+        array_type(vec![12], BIT),
+        array_type(vec![2, 5], BIT),
+        tuple_type(vec![scalar_type(BIT), array_type(vec![3], BIT)]),
+        vector_type(2, array_type(vec![2], BIT)),
+    ]
+}
+
+fn leaf_bytes(t: &Type) -> usize {
+    match t {
+        Type::Scalar(_) | Type::Array(_, _) => ((get_size_in_bits(t.clone()).unwrap_or(0) + 7) / 8) as usize,
+        _ => get_types_vector(t.clone()).map(|ts| ts.iter().map(|x| leaf_bytes(x)).sum()).unwrap_or(0),
+    }
+}
+
+fn valtape_type(t: &Type, sampler: usize, verbose: bool) -> (Vec<Viol>, u64) {
+    let nbytes = leaf_bytes(t);
+    let bits = get_size_in_bits(t.clone()).unwrap_or(0);
+    let sname = if sampler == 0 { "prf-session" } else { "prng" };
+    let case = json!({"part": "valtape", "type": format!("{}", t), "sampler": sampler});
+    let mut viols: Vec<Viol> = vec![];
+    let mut counts: HashMap<Vec<u8>, u64> = HashMap::new();
+    let total = 1u64 << (8 * nbytes);
+    for raw in 0..total {
+        let tape = raw.to_le_bytes()[..nbytes].to_vec();
+        let got = catch(|| -> Result<(Value, usize), String> {
+            if sampler == 0 {
+                verif_prf_value_from_tape(tape, t.clone()).map_err(|e| e.to_string())
+            } else {
+                let mut g = PRNG::verif_from_tape(tape).map_err(|e| e.to_string())?;
+                let v = g.get_random_value(t.clone()).map_err(|e| e.to_string())?;
+                Ok((v, g.verif_tape_consumed()))
+            }
+        });
+        let (v, consumed) = match got {
+            Ok(Ok(x)) => x,
+            Ok(Err(e)) | Err(e) => {
+                if viols.is_empty() {
+                    viols.push(Viol {
+                        sig: format!("C15:value-from-tape:{}:fails", sname),
+                        what: format!("{} value sampler for {} fails: {}", sname, t, first_line(&e)),
+                        case: case.clone(),
+                    });
+                }
+                continue;
+            }
+        };
+        if !vals::layout_ok(&v, t) && !viols.iter().any(|x| x.sig.ends_with("invalid-encoding")) {
+            viols.push(Viol {
+                sig: format!("C15:value-from-tape:{}:invalid-encoding", sname),
+                what: format!("{} value sampler for {} on raw bytes {:?} returns {}, not a valid encoding", sname, t, &raw.to_le_bytes()[..nbytes], vals::show(&v, t)),
+                case: case.clone(),
+            });
+        }
+        if consumed != nbytes && !viols.iter().any(|x| x.sig.ends_with("draw-size")) {
+            viols.push(Viol {
+                sig: format!("C15:value-from-tape:{}:draw-size", sname),
+                what: format!("{} value sampler for {} consumes {} bytes instead of {}", sname, t, consumed, nbytes),
+                case: case.clone(),
+            });
+        }
+        let mut kb = vec![];
+        vals::key(&v, &mut kb);
+        *counts.entry(kb).or_insert(0) += 1;
+    }
+    let expect_values = 1u64 << bits;
+    let expect_each = total / expect_values;
+    if verbose {
+        println!(
+            "  {} {}: {} tapes, {} distinct values (expected {}), counts min {:?} max {:?} (expected {})",
+            sname, t, total, counts.len(), expect_values, counts.values().min(), counts.values().max(), expect_each
+        );
+    }
+    if counts.len() as u64 != expect_values || counts.values().any(|c| *c != expect_each) {
+        viols.push(Viol {
+            sig: format!("C15:value-from-tape:{}:not-uniform", sname),
+            what: format!(
+                "{} value sampler for {}: over all {} tapes {} distinct values occur (expected {}), counts between {:?} and {:?} (expected {} each)",
+                sname, t, total, counts.len(), expect_values, counts.values().min(), counts.values().max(), expect_each
+            ),
+            case,
+        });
+    }
+    (viols, total)
+}
+
+fn valtape_part(r: &Report) {
+    let ts = valtape_types();
+    let jobs: Vec<(usize, usize)> = (0..ts.len()).flat_map(|i| [(i, 0usize), (i, 1usize)]).collect();
+    let outs: Vec<(Vec<Viol>, u64)> = jobs.par_iter().map(|(i, s)| valtape_type(&ts[*i], *s, false)).collect();
+    for (viols, n) in outs {
+        r.count("evaluations", n);
+        r.count("valtape_tapes", n);
+        for v in viols {
+            r.violation(&v.sig, &v.what, v.case);
+        }
+    }
+}
+
+// ---------------------------------------------------------------------------------------------
+// part 7: replay and stream model of the PRNG
+
+#[derive(Clone, Debug)]
+enum GenOp {
+    Bytes(usize),
+    Val(Type),
+    InRange(Option<u64>),
+}
+
+fn gen_ops() -> Vec<GenOp> {
+    vec![
+        GenOp::Bytes(1),
+        GenOp::Bytes(16),
+        GenOp::Bytes(600),
+        GenOp::Val(array_type(vec![70], UINT64)),
+        GenOp::Val(tuple_type(vec![scalar_type(UINT8), scalar_type(INT32)])),
+        GenOp::Val(array_type(vec![9], BIT)),
+        GenOp::InRange(Some(3)),
+        GenOp::InRange(Some((1u64 << 63) + 1)),
+        GenOp::InRange(None),
+    ]
+}
+
+#[derive(Clone, PartialEq, Debug)]
+enum GenOut {
+    Bytes(Vec<u8>),
+    Val(Vec<u8>),
+    Num(u64),
+    Fail(String),
+}
+
+fn apply_op(g: &mut PRNG, op: &GenOp) -> GenOut {
+    let res = catch(|| -> Result<GenOut, String> {
+        Ok(match op {
+            GenOp::Bytes(n) => GenOut::Bytes(g.get_random_bytes(*n).map_err(|e| e.to_string())?),
+            GenOp::Val(t) => {
+                let v = g.get_random_value(t.clone()).map_err(|e| e.to_string())?;
+                let mut kb = vec![];
+                vals::key(&v, &mut kb);
+                if !vals::layout_ok(&v, t) {
+                    return Err(format!("invalid encoding of {}", t));
+                }
+                GenOut::Val(kb)
+            }
+            GenOp::InRange(m) => GenOut::Num(g.get_random_in_range(*m).map_err(|e| e.to_string())?),
+        })
+    });
+    match res {
+        Ok(Ok(o)) => o,
+        Ok(Err(e)) | Err(e) => GenOut::Fail(first_line(&e)),
+    }
+}
+
+/// prediction of an op's output from the raw stream (None: not predicted, e.g. bit types)
+fn predict(op: &GenOp, stream: &[u8], pos: &mut usize) -> Option<GenOut> {
+    match op {
+        GenOp::Bytes(n) => {
+            let o = stream[*pos..*pos + n].to_vec();
+            *pos += n;
+            Some(GenOut::Bytes(o))
+        }
+        GenOp::Val(t) => {
+            let n = leaf_bytes(t);
+            let mut p = *pos;
+            *pos += n;
+            if has_padding_bits(t) {
+                return None;
+            }
+            let v = vals::build_value(t, &mut |lt| {
+                let k = leaf_bytes(lt);
+                let b = stream[p..p + k].to_vec();
+                p += k;
+                Value::from_bytes(b)
+            });
+            let mut kb = vec![];
+            vals::key(&v, &mut kb);
+            Some(GenOut::Val(kb))
+        }
+        GenOp::InRange(m) => loop {
+            let mut b = [0u8; 8];
+            b.copy_from_slice(&stream[*pos..*pos + 8]);
+            *pos += 8;
+            let raw = u64::from_le_bytes(b);
+            match m {
+                None => return Some(GenOut::Num(raw)),
+                Some(m) => {
+                    let bound = (1u128 << 64) / *m as u128 * *m as u128;
+                    if (raw as u128) < bound {
+                        return Some(GenOut::Num(raw % m));
+                    }
+                }
+            }
+        },
+    }
+}
+
+fn stream_case(seed: [u8; 16], seq: &[usize], verbose: bool) -> Vec<Viol> {
+    let ops = gen_ops();
+    let case = json!({"part": "stream", "seed": seed.to_vec(), "seq": seq});
+    let mut viols = vec![];
+    let mut g1 = PRNG::new(Some(seed)).unwrap();
+    let mut g2 = PRNG::new(Some(seed)).unwrap();
+    let mut g3 = PRNG::new(Some(seed)).unwrap();
+    let stream = g3.get_random_bytes(4096).unwrap_or_default();
+    let mut pos = 0usize;
+    for (i, oi) in seq.iter().enumerate() {
+        let op = &ops[*oi];
+        let o1 = apply_op(&mut g1, op);
+        let o2 = apply_op(&mut g2, op);
+        if let GenOut::Fail(e) = &o1 {
+            viols.push(Viol {
+                sig: "C15:prng:call-fails".into(),
+                what: format!("{:?} (call {} of the sequence) fails: {}", op, i, e),
+                case: case.clone(),
+            });
+            break;
+        }
+        if o1 != o2 {
+            viols.push(Viol {
+                sig: "C15:prng:replay-differs".into(),
+                what: format!("two generators created from the same seed differ at call {} ({:?}) of the same call sequence", i, op),
+                case: case.clone(),
+            });
+        }
+        let pred = predict(op, &stream, &mut pos);
+        if verbose {
+            let short = |o: &GenOut| -> String {
+                let s = format!("{:?}", o);
+                s.chars().take(90).collect()
+            };
+            println!("  call {} {:?}: observed {} ; predicted from the raw stream {}", i, op, short(&o1), pred.as_ref().map(short).unwrap_or("-".into()));
+        }
+        if let Some(p) = pred {
+            if p != o1 {
+                let opname = match op {
+                    GenOp::Bytes(_) => "bytes",
+                    GenOp::Val(_) => "value",
+                    GenOp::InRange(_) => "in-range",
+                };
+                viols.push(Viol {
+                    sig: format!("C15:prng:stream-model-mismatch:{}", opname),
+                    what: format!(
+                        "call {} ({:?}) of the sequence does not return what the generator's raw byte stream (one 4096-byte read from the same seed) predicts at offset {}",
+                        i, op, pos
+                    ),
+                    case: case.clone(),
+                });
+            }
+        }
+    }
+    viols
+}
+
+fn stream_part(r: &Report) {
+    let nops = gen_ops().len();
+    let mut seqs: Vec<Vec<usize>> = vec![];
+    for len in 1..=3usize {
+        let total = nops.pow(len as u32);
+        for id in 0..total {
+            let mut x = id;
+            let mut s = vec![];
+            for _ in 0..len {
+                s.push(x % nops);
+                x /= nops;
+            }
+            seqs.push(s);
+        }
+    }
+    let seeds: Vec<[u8; 16]> = vec![[0u8; 16], [0xffu8; 16], seed_of(11, r.seed), seed_of(12, r.seed)];
+    // different seeds give different streams
+    let firsts: Vec<Vec<u8>> = seeds.iter().map(|s| PRNG::new(Some(*s)).unwrap().get_random_bytes(16).unwrap_or_default()).collect();
+    for i in 0..firsts.len() {
+        for j in (i + 1)..firsts.len() {
+            if firsts[i] == firsts[j] {
+                r.violation("C15:prng:seeds-collide", "two different seeds give the same first block", json!({"part": "stream-seeds"}));
+            }
+        }
+    }
+    for seed in seeds.iter() {
+        let outs: Vec<Vec<Viol>> = seqs.par_iter().map(|s| stream_case(*seed, s, false)).collect();
+        for (i, viols) in outs.into_iter().enumerate() {
+            r.count("evaluations", 2 * seqs[i].len() as u64);
+            r.count("stream_sequences", 1);
+            r.count("stream_calls_predicted", seqs[i].len() as u64);
+            for v in viols {
+                r.violation(&v.sig, &v.what, v.case);
+            }
+        }
+    }
+}
+
+// ---------------------------------------------------------------------------------------------
+
+pub fn run(r: &Report) -> i32 {
+    let mut times = serde_json::Map::new();
+    let mut timed = |name: &str, f: &dyn Fn(&Report)| {
+        let t0 = r.elapsed();
+        f(r);
+        times.insert(name.to_string(), json!(((r.elapsed() - t0) * 10.0).round() / 10.0));
+    };
+    timed("validity", &validity_part);
+    timed("u32range", &u32range_part);
+    timed("u64range", &u64range_part);
+    timed("shuffle", &shuffle_part);
+    timed("valtape", &valtape_part);
+    timed("stream", &stream_part);
+    timed("history", &history_part);
+    r.extra("part_wall_s", J::Object(times));
+    r.finish(
+        "model_checking",
+        "history: in-crate exhaustive exploration of the call-history tree (no state merging: a state is a history): two \
+         evaluator instances x {PRF(K1|K2, 1..3, 5 types incl. u64[70]) , PermutationFromPRF(K1|K2, 1..3, n in 1,2,5,300), \
+         Random(u8[3]), RandomPermutation(5)}, all histories up to depth 3; thorough adds all histories up to depth 4 over a reduced alphabet (22 calls: counters 1..2, 4 types, n in 5,300); every call checked against \
+         a reference table (fresh evaluator per call); validity: 26 output types and 10 permutation sizes x counters 0..4095 x 3 \
+         keys (K2, K3 differ from K1 in one bit); u32range: every modulus 1..=256 x all 65536 raw values (thorough: 257, 1000, \
+         65535, 65536 x all 2^24) through the tape hook; u64range: moduli 1..=65536 and 2^k, 2^k+-1, 3*2^k x raw values around \
+         floor(2^64/m)*m; shuffle: all (n!)^(n-1) raw tuples for n <= 4; valtape: all tapes for 10 small bit types x 2 samplers; \
+         stream: all call sequences of length <= 3 over 9 generator calls x 4 seeds",
+        true,
+        &[
+            "the reference value of a PRF call is what a fresh SimpleEvaluator returns for it (the oracle is purity, not AES correctness)",
+            "the oracle for Random draws is the same seed without the interleaved PRF calls",
+            "u32range: a draw's size is what the always-accepted raw value 0 consumes; rejected draws are checked to be discarded completely",
+            "uniformity of PermutationFromPRF is not observable through a tape (no hook); its draws use generate_u32_in_range (checked) in the same Fisher-Yates scheme as RandomPermutation (checked for n <= 4)",
+        ],
+        &[
+            "states",
+            "transitions",
+            "traces_validated_against_impl",
+            "reference_pairs_compared",
+            "validity_calls",
+            "validity_values_with_padding_bits",
+            "validity_distinctness_checked",
+            "validity_stream_blocks_checked",
+            "ctr_law_cases",
+            "u32range_first_draw_rejected",
+            "u32range_first_draw_accepted",
+            "u32boundary_rejected",
+            "u64range_rejected",
+            "shuffle_calls",
+            "valtape_tapes",
+            "stream_calls_predicted",
+        ],
+    )
+}
+
+pub fn replay(r: &Report, rec: &serde_json::Value) -> i32 {
+    let case = &rec["case"];
+    let part = case["part"].as_str().unwrap_or("");
+    let want_sig = rec["signature"].as_str().unwrap_or("");
+    println!("replaying C15 case: {}", case);
+    let viols: Vec<Viol> = match part {
+        "history" => {
+            let depth = 4;
+            let w = match World::new(r.seed, depth, false) {
+                Ok(w) => w,
+                Err(e) => {
+                    println!("MACHINERY-ERROR property=C15 cannot build world: {}", e);
+                    return 2;
+                }
+            };
+            let nc = w.calls.len();
+            let mut actions = vec![];
+            for a in case["actions"].as_array().cloned().unwrap_or_default() {
+                let inst = a[0].as_u64().unwrap_or(0) as usize;
+                let label = a[1].as_str().unwrap_or("");
+                match w.calls.iter().position(|c| c.label == label) {
+                    Some(ci) => actions.push(inst * nc + ci),
+                    None => {
+                        println!("MACHINERY-ERROR property=C15 unknown call {}", label);
+                        return 2;
+                    }
+                }
+            }
+            if case.get("collide").is_some() {
+                let (i, j) = (actions[0] % nc, actions[1] % nc);
+                let same = w.reference[i] == w.reference[j];
+                println!("  {} == {} : {}", w.calls[i].label, w.calls[j].label, same);
+                if same {
+                    vec![Viol { sig: want_sig.to_string(), what: "values collide".into(), case: case.clone() }]
+                } else {
+                    vec![]
+                }
+            } else {
+                w.run_history(&actions, true).into_iter().collect()
+            }
+        }
+        "validity" => {
+            let item: Result<Type, u64> = if let Some(n) = case["item"]["perm_n"].as_u64() {
+                Err(n)
+            } else {
+                let label = case["item"]["type"].as_str().unwrap_or("");
+                match validity_types().into_iter().find(|t| format!("{}", t) == label) {
+                    Some(t) => Ok(t),
+                    None => {
+                        println!("MACHINERY-ERROR property=C15 unknown type {}", label);
+                        return 2;
+                    }
+                }
+            };
+            let ki = case["key"].as_u64().unwrap_or(0) as usize;
+            let ctr = case["counter"].as_u64().unwrap_or(0);
+            validity_item(&item, Some((ki, ctr)), true).viols
+        }
+        "random-validity" => random_validity(r.seed).viols,
+        "ctr-law" => ctr_law(true).0,
+        "u32range" => {
+            let m = case["modulus"].as_u64().unwrap_or(1) as u32;
+            let eb = case["enum_bytes"].as_u64().unwrap_or(2) as usize;
+            u32_range_modulus(m, eb, true).0.viols
+        }
+        "u32boundary" => u32_range_boundary(case["modulus"].as_u64().unwrap_or(1) as u32, true).viols,
+        "u64range" => match case["modulus"].as_str().and_then(|s| s.parse::<u64>().ok()) {
+            Some(m) => u64_range_modulus(m, true).viols,
+            None => {
+                println!("  (re-run the whole check for the no-modulus case)");
+                vec![]
+            }
+        },
+        "shuffle" => shuffle_n(case["n"].as_u64().unwrap_or(1), true).0,
+        "valtape" => {
+            let label = case["type"].as_str().unwrap_or("");
+            let s = case["sampler"].as_u64().unwrap_or(0) as usize;
+            match valtape_types().into_iter().find(|t| format!("{}", t) == label) {
+                Some(t) => valtape_type(&t, s, true).0,
+                None => {
+                    println!("MACHINERY-ERROR property=C15 unknown type {}", label);
+                    return 2;
+                }
+            }
+        }
+        "stream" => {
+            let mut seed = [0u8; 16];
+            for (i, b) in case["seed"].as_array().cloned().unwrap_or_default().iter().enumerate().take(16) {
+                seed[i] = b.as_u64().unwrap_or(0) as u8;
+            }
+            let seq: Vec<usize> =
+                case["seq"].as_array().cloned().unwrap_or_default().iter().map(|x| x.as_u64().unwrap_or(0) as usize).collect();
+            stream_case(seed, &seq, true)
+        }
+        _ => {
+            println!("MACHINERY-ERROR property=C15 unknown replay part '{}'", part);
+            return 2;
+        }
+    };
+    for v in viols.iter() {
+        println!("observed violation [{}]: {}", v.sig, v.what);
+    }
+    if viols.iter().any(|v| v.sig == want_sig) || (want_sig.is_empty() && !viols.is_empty()) {
+        println!("REPRODUCED property=C15 signature={}", want_sig);
+        1
+    } else {
+        println!("NOT-REPRODUCED property=C15 signature={}", want_sig);
+        0
+    }
 }
